@@ -4,7 +4,10 @@
    the accumulate table (gas fetch lookup read write info log bless assign designate checkpoint new upgrade transfer
    eject query solicit forget yield provide + the answer to an identifier without entry), [ref_call] over the modelled
    calls of the refine / is-authorized tables (gas fetch historical_lookup export log + unknown).
-   Not modelled (C33): machine, peek, poke, pages, invoke, expunge. *)
+   machine, peek, poke, pages, invoke, expunge: second half of this file, over the C33 model Model/InnerVm.v. *)
+(* Model/InnerVm.v (the six inner-machine calls, second half of this file) is imported FIRST, so that the names it shares with
+   Model/HostCalls.v - memory, range_ok, readable, writable - mean HostCalls' in the first half; the second half qualifies them. *)
+From JamV Require Import Model.InnerVm Proofs.InnerVmSpec Proofs.HostCallsInnerP.
 From JamV Require Import Base.Bytes Model.Accounts Model.AccCalls Model.HostCalls Proofs.HostCallsMemP Proofs.HostCallsP.
 Local Open Scope N_scope.
 
@@ -230,7 +233,6 @@ Proof. vm_compute. reflexivity. Qed.
    discipline clauses are stated for them, for ALL states. [arg s i] = register i; [write_window]: peek (w8, w10),
    invoke (w8, 112), none for the others; [range_prop ok m a z] = the range is empty or lies inside 2^32 with every
    address ok. *)
-From JamV Require Import Model.InnerVm Proofs.InnerVmSpec Proofs.HostCallsInnerP.
 Local Open Scope Z_scope.
 
 (* hc_frame: among the 13 outer registers only register 7 changes (register 8 as well for invoke: fault address / host-call
@@ -255,11 +257,11 @@ Print Assumptions C07_inner_hc_frame.
 Theorem C07_inner_hc_write_after_check : forall c s,
   (forall e s', hostcall c s = Some (e, s') -> 0 <= arg s 8 -> o_mem s' <> o_mem s ->
      e = XCont /\ (c = CPeek \/ c = CInvoke) /\
-     let '(a, z) := write_window c s in range_prop writable (o_mem s) a z) /\
+     let '(a, z) := write_window c s in range_prop PvmMem.writable (o_mem s) a z) /\
   (forall e s', hostcall c s = Some (e, s') -> e <> XCont ->
      o_regs s' = o_regs s /\ o_gas s' = o_gas s - 10 /\ o_mem s' = o_mem s /\ o_mach s' = o_mach s) /\
   (10 <= o_gas s -> 0 <= arg s 8 -> (c = CPeek \/ c = CInvoke) ->
-     (let '(a, z) := write_window c s in ~ range_prop writable (o_mem s) a z) ->
+     (let '(a, z) := write_window c s in ~ range_prop PvmMem.writable (o_mem s) a z) ->
      hostcall c s = Some (XPanic, upd s (o_regs s) (o_gas s - 10) (o_mem s) (o_mach s))).
 Proof.
   exact (fun c s => conj (inner_write_checked c s) (conj (inner_stop_clean c s) (inner_unwritable_panics c s))).
@@ -269,7 +271,7 @@ Print Assumptions C07_inner_hc_write_after_check.
 (* hc_unreadable_panics_clean: machine requires its program blob (w7, w8), poke its source (w8, w10); if that range is not
    wholly readable the call panics: registers, RAM and machines unchanged, 10 gas charged. *)
 Theorem C07_inner_hc_unreadable_panics_clean : forall c s a z,
-  10 <= o_gas s -> In (a, z) (inner_inputs c s) -> 0 <= a -> ~ range_prop readable (o_mem s) a z ->
+  10 <= o_gas s -> In (a, z) (inner_inputs c s) -> 0 <= a -> ~ range_prop PvmMem.readable (o_mem s) a z ->
   hostcall c s = Some (XPanic, upd s (o_regs s) (o_gas s - 10) (o_mem s) (o_mach s)).
 Proof. exact inner_unreadable_panics. Qed.
 Print Assumptions C07_inner_hc_unreadable_panics_clean.
@@ -290,7 +292,7 @@ Qed.
 Print Assumptions C07_inner_hc_error_no_state_change.
 
 (* non-vacuity: a machine whose program is "trap", an outer RAM with a read-write page 16 and a read-only page 17 *)
-Definition in_mem : memory :=
+Definition in_mem : PvmMem.memory :=
   {| m_pages := [(16, {| p_acc := AccRW; p_dat := [] |}); (17, {| p_acc := AccRO; p_dat := [] |})]; m_hp := 0; m_hl := 0 |}.
 Definition in_prog : prog := {| code := [0]; mask := [true]; jt_count := 0; jt_width := 0; jt_bytes := [] |}.     (* trap *)
 Definition in_state (r7 r8 r9 r10 : Z) : istate :=
@@ -309,8 +311,8 @@ Proof. vm_compute. repeat split; reflexivity. Qed.
 (* the same window on the read-only page 17, and one straddling 16/17: the hypotheses of clause (3) hold, the call panics
    and nothing changes *)
 Example in_invoke_ro :
-  range_ok readable in_mem 69632 112 = true /\ range_ok writable in_mem 69632 112 = false /\
-  range_ok writable in_mem 69600 112 = false /\
+  InnerVm.range_ok PvmMem.readable in_mem 69632 112 = true /\ InnerVm.range_ok PvmMem.writable in_mem 69632 112 = false /\
+  InnerVm.range_ok PvmMem.writable in_mem 69600 112 = false /\
   hostcall CInvoke (in_state 0 69632 0 0) = Some (XPanic, upd (in_state 0 69632 0 0) (o_regs (in_state 0 69632 0 0)) 90 in_mem (o_mach (in_state 0 69632 0 0))) /\
   hostcall CInvoke (in_state 0 69600 0 0) = Some (XPanic, upd (in_state 0 69600 0 0) (o_regs (in_state 0 69600 0 0)) 90 in_mem (o_mach (in_state 0 69600 0 0))).
 Proof. vm_compute. repeat split; reflexivity. Qed.
@@ -321,7 +323,7 @@ Example in_who :
   | Some (e, s') => e = XCont /\ In (greg (o_regs s') 7) inner_codes /\ o_mem s' = in_mem /\ o_mach s' = o_mach (in_state 5 65536 0 0)
   | None => False
   end /\
-  In (4096, 8) (inner_inputs CPoke (in_state 0 4096 65536 8)) /\ range_ok readable in_mem 4096 8 = false /\
+  In (4096, 8) (inner_inputs CPoke (in_state 0 4096 65536 8)) /\ InnerVm.range_ok PvmMem.readable in_mem 4096 8 = false /\
   hostcall CPoke (in_state 0 4096 65536 8) = Some (XPanic, upd (in_state 0 4096 65536 8) (o_regs (in_state 0 4096 65536 8)) 90 in_mem (o_mach (in_state 0 4096 65536 8))).
 Proof.
   split; [| vm_compute; repeat split; try reflexivity; left; reflexivity].
